@@ -22,7 +22,7 @@ Ev == Rec[l]
 TTable ==
   /\ l <= Len(Rec) /\ Ev.e = "table"
   /\ "error" \notin DOMAIN Ev
-  /\ LET av == AsIsV(Ev.tokens)  af == AsIsF(Ev.tokens) IN
+  /\ LET av == AsIsV(Ev.tokens, Ev.pw)  af == AsIsF(Ev.tokens, Ev.pw) IN
        /\ Ev.v = av
        /\ Ev.f = af
        /\ refines' = (av = IdealV(Ev.tokens) /\ af = IdealF(Ev.tokens))
